@@ -9,7 +9,7 @@ def add(pid, technique, text, note, ref):
     CHECKS[pid] = (technique, text, note, ref)
 
 add("C03", "bounded-exhaustive token-sequence / edit / prefix / character-string exploration of the real parser against an Earley recogniser over the transcribed CFG",
-    "Every token sequence up to the stated length in 14 syntactic frames, every 1-edit (thorough: 2-edit) mutant and every prefix+1 of six seed documents, every keyword in every identifier slot and every atom string up to the stated length in three character frames is parsed by the real library; its verdict (tree / syntax diagnostics, before and after validation) is compared with a reference lexer + generic Earley recogniser. Exhaustive within those bounds; nothing sampled.",
+    "Every token sequence up to length 2 (3 in the three body frames; thorough 3 / 4) in 16 syntactic frames, every single insertion / deletion / replacement / adjacent swap (thorough: every pair of edits on the two small seeds) and every prefix+1 of six seed documents, every keyword, literal, reserved word and near-keyword in each of 12 identifier slots, 42 hand-listed lexeme variants and every atom string up to length 3-4 (thorough 4-5) in three character frames is parsed by the real library; its verdict (tree / syntax diagnostics, before and after validation) is compared with a reference lexer + generic Earley recogniser. Exhaustive within those bounds; nothing sampled.",
     "trusted: reference lexer and CFG transcription (DESIGN.md appendices A/B), hook H1 read accessor; bounds: sequence length, edit distance, atom alphabets",
     "DESIGN.md section 4, C03")
 add("C20", "exhaustive enumeration of error points (C03 spaces) with the parser's own expectation vector recorded by a hook as oracle",
@@ -28,46 +28,46 @@ add("C04", "bounded-exhaustive document x layout exploration with a token table 
 
 SEMA_NOTE = "trusted: reference validator transcribed from the statements (harness/src/model/sema.rs), document renderer / token table; diagnostics are matched by severity, range and related ranges, never by message text; bounds as stated"
 add("C05", "exhaustive enumeration of import / declaration / project configurations (and replace / remove histories reaching them) on the real Parser against a reference resolution rule",
-    "All subsets of <= 3 of 8 imports x all sets of 3 forward declarations x 8 (thorough 16) project contexts; the observed file holds 15 adversarially similar names x 5 nesting depths x 4 positions. Every type node's kind after validate() and every diagnostic on a type-name span is compared with the statement's rule; the same final projects are also reached through replace (with transient decoy contents), add-then-remove and reversed histories. Exhaustive over that product.",
+    "All subsets of <= 3 of 8 imports x all sets of 3 forward declarations x 8 (thorough 16) project contexts (5 952 / 11 904 configurations, 300 type references each); the observed file holds 15 adversarially similar names x 5 nesting depths x 4 positions. Every type node's kind after validate() and every diagnostic on a type-name span is compared with the statement's rule; the same final projects are also reached through replace (with transient decoy contents), add-then-remove, reversed and replaced-by-a-file-without-a-tree histories (quick: every 5th configuration, thorough: all). Exhaustive over that product.",
     SEMA_NOTE, "DESIGN.md section 4, C05")
 add("C06", "exhaustive enumeration of import lists x forward-declaration lists x bodies x project contexts against the statement's exactly-one-of table",
     "Every import list (with repetition) of length <= 2 (thorough <= 3) over 9 imports x every declaration list of length <= 2 (thorough <= 3) over 5 names x 2 bodies x 2 contexts (quick adds all import lists of length 3 with declaration lists <= 1); the multiset of validation diagnostics located in the header must equal the reference multiset (severity, statement, related statement).",
     SEMA_NOTE, "DESIGN.md section 4, C06")
 add("C07", "exhaustive enumeration of ordered argument pairs over (category x direction) cells x oneway combinations against the statement's table",
-    "All ordered pairs of 80 (category, direction) cells (20 category representatives reached through real multi-file resolution) x interface oneway x 4 method-oneway patterns x with/without a constant before a member, every cell alone, thorough: all triples over a 6-category core; Errors on direction keywords / at argument type starts and the propagated oneway flags are compared with the reference.",
+    "All ordered pairs of 80 (category, direction) cells (20 category representatives reached through real multi-file resolution; every third argument annotated) x interface oneway x 4 method-oneway patterns x with/without a constant before a member (then all methods share one name), every cell alone, thorough: all 512 000 ordered triples; Errors on direction keywords / at argument type starts and the propagated oneway flags are compared with the reference.",
     SEMA_NOTE, "DESIGN.md section 4, C07")
 add("C08", "exhaustive enumeration of container shapes to depth 3/4 over 17 leaf categories in 4 positions against the statement's element tables",
-    "Every chain over {T[], List<T>, Map<String,T>, Map<T,String>} of depth <= 3 (thorough 4) over 17 leaf categories plus all Map<k,v> over leaf pairs, in return / argument / field / constant position, packed 40 per file and unpacked at the next smaller depth; every validation diagnostic inside a type's extent is compared with the reference applied to every container node.",
+    "Every chain over {T[], List<T>, Map<String,T>, Map<T,String>} of depth <= 4 (thorough 5) over 17 leaf categories plus all Map<k,v> over leaf pairs, in return / argument / field / constant position, with and without the file importing the built-ins it uses, packed 40 per file and unpacked at the next smaller depth; every validation diagnostic inside a type's extent is compared with the reference applied to every container node.",
     SEMA_NOTE, "DESIGN.md section 4, C08")
 add("C09", "exhaustive enumeration of member sequences (append-one-member transition) against a reference single pass",
     "Every member sequence of length <= 4 (thorough 5) over 12 methods (3 names x {no code, 8, 010, 10}) and a constant; all diagnostics inside the interface body incl. related ranges are compared with the reference (first-occurrence bookkeeping, exactly one 'mixed' Error).",
     SEMA_NOTE, "DESIGN.md section 4, C09")
 add("C10", "exhaustive enumeration of (interface oneway x method lists over oneway x return-type category) against the propagation / void rule",
-    "Interface oneway x all method lists of length <= 1 over 38 forms, pairs over 12 (thorough 38) forms, triples over 8 forms, each plain / constant first / constant between / same method name; oneway flags in the returned tree, Warnings on `oneway` keywords and Errors on return types are compared with the reference.",
+    "Interface oneway x all method lists of length <= 2 over 38 forms (method oneway x 19 return-type categories), triples over 8 (thorough 38) forms, each plain / constant first / constant between / same method name / annotated methods; oneway flags in the returned tree, Warnings on `oneway` keywords and Errors on return types are compared with the reference.",
     SEMA_NOTE, "DESIGN.md section 4, C10")
 
 add("C15", "exhaustive enumeration of generated trees x filter levels x predicate families against a reference visit order",
-    "Every tree of the listed document families (types nested to depth 3/4 in 4 positions and in parcelable constants, member sequences, argument lists, headers, names, seeds) x 3 filter levels x all predicates of the forms 'is the k-th visited symbol' (stateful), 'is of kind K', 'name equals N'; walk / filter / find and the type, method and argument walkers are compared with the reference order derived from the document model.",
+    "Every tree of the listed document families (types nested to depth 4/5 in 4 positions and in parcelable constants, member sequences, argument lists, headers, names, seeds) x 3 filter levels x all predicates of the forms 'is the k-th visited symbol' (stateful), 'is of kind K', 'name equals N'; walk / filter / find and the type, method and argument walkers are compared with the reference order derived from the document model.",
     "trusted: reference visit order (model/traverse.rs) and the token table for name spans", "DESIGN.md section 4, C15")
 add("C16", "exhaustive enumeration of every (line, column) position of every generated document x layout x filter level against the reference order and token-table spans",
     "Documents of the C15 families in layouts with line breaks and multi-byte text before / inside names x every character position, positions past line ends, column 0, line 0 and last+1 x 3 filter levels; find_symbol_at_line_col must return the first symbol in reference order whose expected name span contains the position (inclusive), or nothing.",
     "trusted: token table spans, grapheme-cluster columns via unicode-segmentation", "DESIGN.md section 4, C16")
 add("C17", "exhaustive enumeration of (item kind x package depth x referencing position x nesting x written form) five-file projects",
-    "All 3 x 3 x 4 x 4 x (2-3) configurations of a five-file project (target, suffix-named sibling, same-named item in another package, two referrers); get_qualified_name / get_name of every symbol of every file and Aidl::get_key are compared with the statement.",
+    "All 3 item kinds x 3 package depths x 4 positions x 7 nesting contexts x 2-3 written forms x 2 layouts (referrers one token per line) x 3 (thorough 5) histories of a five-file project (target, suffix-named sibling, same-named item in another package, two referrers); get_qualified_name / get_name of every symbol of every file and Aidl::get_key are compared with the statement.",
     "trusted: document model, reference resolution rule; files whose traversal differs from the reference are skipped (C15)", "DESIGN.md section 4, C17")
 add("C18", "exhaustive enumeration of (construct x situation x doc shape x style x EOL) against an expected documentation string built from the doc model",
-    "Every documentable construct (20 instances over three host documents, annotated and plain) x 9 situations x 326 doc shapes (quick: all shapes for the plain doc-comment situation, 6 representatives for the others; thorough: all for all) x 4 rendering styles x LF/CRLF; the doc field of every documentable construct of the returned tree is compared with the expectation (None wherever the comment does not directly precede).",
+    "Every documentable construct (20 instances over three host documents, annotated and plain) x 10 situations x 326 doc shapes (quick: all shapes for the plain doc-comment situation, 6 representatives for the others; thorough: all for all) x 4 rendering styles x LF/CRLF; the doc field of every documentable construct of the returned tree is compared with the expectation (None wherever the comment does not directly precede).",
     "trusted: doc model / renderer (model/docs.rs); statement's restrictions on comment content are the space's", "DESIGN.md section 4, C18")
 add("C19", "exhaustive enumeration of trees over the optional-field presence product and all resolved kinds, RON round trip as oracle",
-    "Every parse-stage and validated tree of the C02 document space, of the full presence product of optional fields (with empty / multi-paragraph / non-ASCII / CRLF documentation) and of a multi-file project reaching every TypeKind is serialised with ron and read back; equality with the original is required.",
+    "Every parse-stage and validated tree of the C02 document space, of the full presence product of optional fields (with empty / multi-paragraph / non-ASCII / CRLF documentation), of a multi-file project reaching every TypeKind and (thorough) of the 5 952 C05 configurations (both observed files) is serialised with ron and read back; equality with the original is required.",
     "trusted: ron 0.7, serde_json (triage only)", "DESIGN.md section 4, C19")
 
 add("C01", "bounded-exhaustive input-shape exploration (character trees, token-sequence trees, edits, nasty fillers in every gap, parametric families, project assignments) in a supervised child process",
-    "Every atom string up to length 3-5 in 7 character frames, every token sequence up to length 2 (thorough 3) in 14 frames, every single token edit of six seeds, every nasty filler in every token gap (thorough: pairs of gaps on the small seeds), nesting depth 0..64, sizes by doubling to 16 KiB (thorough 64 KiB), every assignment of 5 contents to <= 4 (thorough 6) ids, and an import x type-name soup are fed to add_content + validate under catch_unwind; the exploring process is supervised so that aborts, stack overflows and hangs are attributed to the case in flight. Oracle: returns, key set = id set, tags.",
+    "Every atom string up to length 3-5 in 7 character frames, every token sequence up to length 2 (thorough 3) in 16 frames, every single token edit of six seeds, every nasty filler in every token gap (thorough: pairs of gaps on the small seeds), nesting depth 0..64, sizes by doubling to 16 KiB (thorough 64 KiB), every assignment of 5 contents to <= 4 (thorough 6) ids, and an import x type-name soup are fed to add_content + validate under catch_unwind; the exploring process is supervised so that aborts, stack overflows and hangs are attributed to the case in flight. Oracle: returns, key set = id set, tags.",
     "trusted: wall-clock limits separate slow from hanging (120 s; 900 s for the size families); bounds: alphabets, lengths, depth 64, 64 KiB",
     "DESIGN.md section 4, C01")
 add("C11", "exhaustive exploration of environment answers (hash-iteration orders) with owned seeds and a closure certificate, x insertion orders x histories x repeated calls",
-    "12 colliding projects x insertion orders (quick 6, thorough all 24) x plain / replace histories x base keys of fresh threads x repeated validate() calls; std's hash seeds are owned through an LD_PRELOAD getrandom shim, and seeds are enumerated until every hash container of <= 4 elements has been observed (hook H3) in all its iteration orders at every site (evidence lists observed / possible per site). All outputs of a project must be equal (trees by ==, diagnostic vectors element-wise) and every file's diagnostics ascending in (line, column). One recorded finding (one key registered with two kinds).",
+    "19 colliding projects x insertion orders (quick 6, thorough all 24) x plain / replace-with-a-validation-in-between histories x base keys of fresh threads x repeated validate() calls, plus the same projects in 4 (thorough 16) child processes; std's hash seeds are owned through an LD_PRELOAD getrandom shim, and seeds are enumerated until every hash container of <= 4 elements has been observed (hook H3) in all its iteration orders at every site (evidence lists observed / possible per site). All outputs of a project must be equal (trees by ==, diagnostic vectors element-wise) and every file's diagnostics ascending in (line, column). One recorded finding (one key registered with two kinds).",
     "trusted: getrandom shim (self-tested each run), hook H3 observers; thread schedules are not explored (no synchronisation operations in the library)",
     "DESIGN.md section 4, C11")
 add("C12", "explicit-state exploration of operation histories on the live Parser (cloned per branch) against a fresh parser built from the abstract id -> content map",
@@ -75,11 +75,11 @@ add("C12", "explicit-state exploration of operation histories on the live Parser
     "trusted: hook H4 (derived Clone) for branching - every violation is re-confirmed by a from-scratch replay without clones; abstract states with one key in two kinds are pruned (C11)",
     "DESIGN.md section 4, C12")
 add("C13", "explicit-state exploration of (observed file, project) states under single-file perturbations of the live parser, differential oracle",
-    "4 observed files x every set of <= 2 (thorough 3) of 18 other files x every single-file perturbation (add / drop / swap / replace in place) applied to the already validated live parser; all observations with equal (observed text, per-import registered?/kind) must be equal; kind changes must be observable (negative control).",
+    "5 observed files x every set of <= 2 (thorough 4) of 19 other files x every single-file perturbation (add / drop / swap / replace in place) applied to the already validated live parser; all observations with equal (observed text, per-import registered?/kind) must be equal; kind changes must be observable (negative control).",
     "trusted: hook H4 (Clone); violations re-confirmed by replaying both plain histories; projects with one key in two kinds excluded (C11)",
     "DESIGN.md section 4, C13")
 add("C14", "bounded-exhaustive token-string exploration of malformed members in member frames against sibling-preservation and locality oracles",
-    "Item kind (3) x position (first / middle / last) x every token string of length <= 2 (middle position 3; thorough 3 / 4) over the vocabulary minus terminators and braces, plus all fused pairs of well-formed members, kept when the Earley recogniser says the string is not a member and is detectably dead by its terminator; oracle: tree present, siblings intact in order, >= 1 syntax Error, every syntax diagnostic inside the malformed member's extent.",
+    "Item kind (3) x position (first / middle / last) x every token string of length <= 2 (middle position 3; thorough 3 / 4) over the vocabulary minus terminators and braces, plus all fused pairs of well-formed members and 8 token patterns repeated 1..24 times, kept when the Earley recogniser says the string is not a member and is detectably dead by its terminator; oracle: tree present, siblings intact in order (parse-stage tree against the model; validated tree against the validated document without the malformed member), >= 1 syntax Error, every syntax diagnostic inside the malformed member's extent.",
     "trusted: CFG transcription + Earley recogniser for membership, token table for the extent, hook H1",
     "DESIGN.md section 4, C14")
 
